@@ -114,6 +114,11 @@ pub const ASTRAL: &[&str] = &[
     "\u{1F4A9}", "\u{1D49C}", "\u{10000}", "\u{10FFFF}", "\u{FFFF}", "\u{80}", "\u{7F}", "\u{7FF}", "\u{800}",
     "\u{E9}", "\u{100}", "\u{FFF}", "\u{1000}", "\u{FFFFF}", "\u{100000}", "a", "e\u{301}", "\u{FFFD}",
 ];
+/// clusters of several code points that grex keeps whole and whose members differ in class membership
+pub const MIXED_CLUSTERS: &[&str] = &[
+    "a\u{1F3FD}", "7\u{1F3FB}", " \u{1F3FC}", "\u{2665}\u{FF9E}", "\u{D4E}1", "\u{D4E}-", "_\u{1F3FF}",
+    "\u{663}\u{1F3FB}", "\u{1F1E9}\u{1F1EA}", "\u{1100}\u{1161}", "-\u{FF9F}", "\u{a0}\u{1F3FB}",
+];
 pub const ESCS: &[&str] = &["\u{1b}", "[", "m", "0", "1", ";", "3", "]", "\\"];
 pub const PLAIN: &[&str] = &["a", "b", "c"];
 
@@ -316,7 +321,7 @@ impl Driver {
             "color" => d.n = q(1200, 20000),
             "lattice" => d.n = q(300, 5000),
             "orders" => d.n = q(1200, 15000),
-            "stages" => d.n = q(1500, 25000),
+            "stages" => d.n = q(800, 20000),
             other => panic!("unknown driver {}", other),
         }
         d
@@ -455,9 +460,12 @@ impl Driver {
             }
             // C03: class conversion on multi-script digits / letters / spaces
             "classes" => {
-                let pools: [&'static [&'static str]; 4] = [DIGITS, SPACES, CASED, PLAIN];
+                let pools: [&'static [&'static str]; 5] = [DIGITS, SPACES, CASED, PLAIN, MIXED_CLUSTERS];
                 let mut letters = letters_from(&mut rng, &[DIGITS], 3);
                 letters.extend(letters_from(&mut rng, &pools, 3));
+                if rng.gen_bool(0.3) {
+                    letters.extend(letters_from(&mut rng, &[MIXED_CLUSTERS], 1));
+                }
                 let tcs = shaped_set(&mut rng, &letters, 3, 3);
                 let mut runs = vec![run(base.clone(), &tcs)];
                 let nsub = if self.thorough { 10 } else { 6 };
@@ -503,7 +511,10 @@ impl Driver {
             // all 64 subsets (thorough)
             "class-sweep" => {
                 let c = scalar(i);
-                let tcs = vec![c.to_string()];
+                // every 16th scalar value is (also) placed in front of an emoji modifier: the two code points
+                // form ONE grapheme cluster, and each must still be classified on its own
+                let in_cluster = i % 16 == 5 && !c.is_control() && (c as u32) > 0x20;
+                let tcs = if in_cluster { vec![format!("{}\u{1F3FB}", c)] } else { vec![c.to_string()] };
                 let mut runs = vec![];
                 if self.thorough {
                     for bits in 1..64u32 {
